@@ -12,6 +12,23 @@ NOTE = ('Trusted: CrossHair\'s symbolic models of Python builtins, z3, the harne
         'INCOMPLETE and are not counted as discharged.')
 
 CLAIMED = {
+    'C01': ('symbolic execution of one mutating/copying operation from every skeleton tree + depth-2 histories; tree-integrity '
+            'invariant (CrossHair/z3)', '§3 C01',
+            'Every operation of the list/dict/object/rebind/copy surface is applied at a symbolic node of constructor-built '
+            'skeleton trees with symbolic index/key, inserted-value kind (fresh, plain, existing node, foreign node); afterwards '
+            'every reachable node must have the storing container as parent, its true path, be found by that path, appear once, '
+            'and removed nodes must be detached. One inductive step plus depth-2 histories.'),
+    'C07': ('symbolic execution of clone/copy/deepcopy then one mutation on either side (CrossHair/z3)', '§3 C07',
+            'Clone kind, cloned node, flags, enclosing scoped overrides and a follow-up mutation are symbolic; fidelity (equal, '
+            'class, flags, spec, own tree, no shared symbolic node, leaf sharing rule) and non-interference are asserted.'),
+    'C08': ('symbolic execution of every mutator under symbolic seal/accessor flags and nested scopes vs a reference permission '
+            'function (CrossHair/z3)', '§3 C08',
+            'Protected node, target node, per-object flags and two nested scopes per manager are symbolic; a refused write '
+            'must raise WritePermissionError and leave the tree bit-identical, an allowed one must not be refused.'),
+    'C09': ('symbolic execution of mutators with recording subscribers; event log vs before/after snapshots; derived facts vs a '
+            'fresh deep clone (CrossHair/z3)', '§3 C09',
+            'Exactly-once, ancestors-only, bottom-up delivery, truthful payload, nothing when disabled; memoised facts equal a '
+            'fresh computation after each mutation.'),
     'C02': ('differential symbolic execution vs built-in list/dict + unbounded-int slice lemma (CrossHair/z3)', '§3 C02',
             'Every list/dict API operation is applied to a pg container and a built-in one with symbolic contents, indices, '
             'slice triples and arguments; results, exception class, contents and all read-back views must agree. One '
